@@ -52,10 +52,11 @@ func VerifC12NodeInfo() {
 	if vf.Bool("has-previous-key") {
 		rec.PreviousEncryptionKey = &EncryptionKey{KeyId: "old", PrivateKeyPkcs8: prev, PrivateKeyType: KEYTYPE_X25519}
 	}
-	st := &vfRecorder{secrets: [][]byte{cur, prev}}
+	st := &vfRecorder{secrets: [][]byte{cur}}
 	err := rec.Store(ctx, st, nodeenrollment.WithStorageWrapper(vfWrapper()))
 	vf.Assert("store-ok", err == nil)
 	vf.Assert("no-private-key-in-clear", st.clean)
+	vf.Assert("nodeinfo-previous-private-key-not-in-clear", vf.SecretFree(st.last, prev))
 	vf.Reach("end")
 }
 
